@@ -1,5 +1,6 @@
 import Hive.Proofs.EventsNotifier
 import Hive.Proofs.EventsNotifierRace
+import Hive.Proofs.EventsNotifierConc
 import Hive.Proofs.EventsPromise
 import Hive.Proofs.EventsMax
 import Hive.Proofs.EventsIter
@@ -682,6 +683,56 @@ example : admitted true 2 [.odereg, .odereg, .cancel] = [.ctx] ∧
   decide
 
 end race
+
+/-! ## the whole notifier under any concurrency -/
+section notifierconc
+open Hive.NotifierConc
+
+/-- **C15, notifier, full concurrency.**  Any number of values, any number of listener generations per value, any pool
+of concurrent `Listener(value)`, `Notify(value)`, `Deregister` and `Wait` callers (the context of a Wait may be done at
+any time), any interleaving: a `Wait` of listener `i` that returns (or is about to return) success implies that the
+listener exists and is marked `hit` — and (`C15_notifier_concurrent_hit`) `hit` is set only by the write-locked part of
+a `Notify` for the listener's own value, executed while the listener exists and its `deregistered` flag is unset: Notify
+for its value was called after the listener was created and before it was deregistered.  This covers what the two other
+notifier theorems leave open between them: listener creation racing the last deregistration or `Notify`, and several
+generations of one value at once. -/
+theorem C15_notifier_concurrent (ts ts' : List Th) (s : Sh) (hts : ∀ t ∈ ts, t.initial = true)
+    (hr : Reach sys (init, ts) (s, ts')) (i : Nat) (pc : DPc) (hw : Th.dr i (some .ok) pc ∈ ts') :
+    ∃ l, s.ls[i]? = some l ∧ l.hit = true := by
+  have : CfgInv (s, ts') :=
+    inv_induction CfgInv (cfgInv_init ts hts) (fun a b ha hs => cfgInv_step ha hs) hr
+  exact (this.2 _ hw).1 rfl
+
+/-- The meaning of the ghost `hit` (every transition from a reachable configuration): a listener's `hit` becomes true
+only in the write-locked part of `Notify(v)` with `v` the listener's value, the listener existing before that step with
+its `deregistered` flag unset.  Also part of the invariant: the reference count of every current entry is exact. -/
+theorem C15_notifier_concurrent_hit (ts ts' ts'' : List Th) (s s' : Sh) (hts : ∀ t ∈ ts, t.initial = true)
+    (hr : Reach sys (init, ts) (s, ts')) (hstep : Step sys (s, ts') (s', ts''))
+    (i : Nat) (l' : Lst) (hi : s'.ls[i]? = some l') (hh : l'.hit = true) :
+    (∃ l, s.ls[i]? = some l ∧ l.hit = true) ∨
+    (∃ l v, Th.ntLock v ∈ ts' ∧ s.ls[i]? = some l ∧ l.value = v ∧ l.flag = false) := by
+  have hinv : CfgInv (s, ts') :=
+    inv_induction CfgInv (cfgInv_init ts hts) (fun a b ha hs => cfgInv_step ha hs) hr
+  generalize ha : (s, ts') = a at hstep
+  generalize hb : (s', ts'') = b at hstep
+  cases hstep with
+  | mk s0 pre t post s1 t1 hm =>
+    cases ha; cases hb
+    rcases hit_sound hinv.1 hm hi hh with h | ⟨l, v, rfl, h2, h3, h4⟩
+    · exact Or.inl h
+    · exact Or.inr ⟨l, v, by simp, h2, h3, h4⟩
+
+/-- Non-vacuity and the re-used key: listener 0 of value 7 is notified and waits successfully; listener 1 (a second
+generation of the same value) is created afterwards, is not hit, and the deregistration of listener 0 — which looks the
+entry up by value — leaves its channel alone. -/
+example :
+    let c := runSched sys (init, [.mk 7 false, .ntCheck 7, .w0 0, .mk 7 false, .w0 1])
+      [(0, 0), (1, 0), (1, 0), (3, 0), (2, 0), (2, 0), (2, 0), (2, 0), (2, 0), (2, 0), (4, 0)]
+    c.2[2]? = some (.dr 0 (some .ok) .fin) ∧ c.1.ls.map (·.hit) = [true, false] ∧ c.1.closed = [0] ∧
+    c.1.cur = [(7, 1)] ∧ c.1.counts = [1, 1] := by
+  decide
+
+end notifierconc
 
 /-! ## promise events -/
 section promise
